@@ -1,5 +1,305 @@
-//! C07 harness — to be written (see /verif/mc/HARNESS_GUIDE.md).
+//! C07 — least squares and ridge regression return the exact minimiser of their objective.
+//!
+//! E1 over (X, y, model configuration, width). Two input spaces, both enumerated completely:
+//!  * the lattice: every n x p matrix X over Σ4 (Σ3 for the largest shapes) and every y over
+//!    {0,-1,2}^n, p in {1,2,(3)}, n = p+1..p+3, with the exact rank of X and [X 1] deciding the domain;
+//!  * structured designs (Chebyshev-node Vandermonde, indicator, ramp), p <= 8, n <= 80, with
+//!    every combination of 6 column-scale patterns over {1,1e-2,1e3}, 6 column-mean patterns over
+//!    {0,5,100} and 4 targets; the domain is decided by the oracle's own singular values.
+//! Every execution fits one model configuration (OLS, or ridge with one alpha and one normalise
+//! setting) with BOTH solvers and checks every clause of the statement at the reported (w, b).
+
+mod check;
+mod dd;
+mod gen;
+
+use check::{check_ols, check_ridge, Ctx};
+use gen::{XInfo, W};
+use mc_core::oracle::Mat;
+use mc_core::{self as mc, json, Harness, Job, Plan, Tier};
+
+struct C07;
+
+const N_CONFIGS: usize = 9; // 0 = OLS; 1..=4 ridge normalize=on, alpha index; 5..=8 ridge normalize=off
+
+fn config_name(c: usize) -> String {
+    match c {
+        0 => "OLS (QR and SVD)".to_string(),
+        c => format!("ridge alpha={:e} normalize={} (Cholesky and SVD)", gen::ALPHAS[(c - 1) % 4], c <= 4),
+    }
+}
+
+fn mat_str(x: &Mat) -> String {
+    format!("[{}]", x.iter().map(|r| format!("[{}]", r.iter().map(|v| format!("{}", v)).collect::<Vec<_>>().join(","))).collect::<Vec<_>>().join(","))
+}
+
+/// One configuration on one (X, y): decides the domain, runs the checks, counts.
+fn run_config(xi: &XInfo, y: &[f64], cfg: usize, label: &dyn Fn() -> String) {
+    let lim = xi.w.cond_limit();
+    let cx = Ctx { xi, y, label };
+    let f32c = xi.w == W::F32;
+    let nontrivial = match cfg {
+        0 => {
+            if !xi.a_full_rank || !(xi.kappa_a() <= lim) {
+                mc::count("skipped_ols_design_rank_deficient_or_cond_over_limit");
+                return;
+            }
+            mc::count("ols_cases");
+            if f32c {
+                mc::count("ols_cases_f32");
+            }
+            if xi.n == xi.p + 1 {
+                mc::count("ols_square_system_zero_residual");
+            }
+            check_ols(&cx)
+        }
+        c => {
+            let normalize = c <= 4;
+            let alpha = gen::ALPHAS[(c - 1) % 4];
+            if !xi.x_full_rank || !(xi.kappa_x() <= lim) {
+                mc::count("skipped_ridge_x_rank_deficient_or_cond_over_limit");
+                return;
+            }
+            if normalize {
+                // standardisation is defined only for non-constant columns; [X 1] full rank implies that
+                if !xi.a_full_rank || xi.z.is_none() {
+                    mc::count("skipped_ridge_norm_on_constant_column");
+                    return;
+                }
+                // the centred data keep fewer than 3 digits in this width: the standardised objective is not resolved
+                if xi.kappa_s * xi.w.eps() > 1e-3 {
+                    mc::count("skipped_ridge_norm_on_unresolved_in_width");
+                    return;
+                }
+                mc::count("ridge_norm_on_cases");
+            } else {
+                mc::count("ridge_norm_off_cases");
+                if !xi.a_full_rank {
+                    mc::count("ridge_norm_off_with_constant_or_dependent_on_ones");
+                }
+            }
+            if f32c {
+                mc::count("ridge_cases_f32");
+            }
+            check_ridge(&cx, alpha, normalize)
+        }
+    };
+    if xi.mu.iter().any(|m| *m != 0.0) {
+        mc::count("nonzero_column_mean");
+    }
+    if nontrivial {
+        mc::nontrivial();
+        mc::count("nonzero_model");
+    }
+}
+
+fn width_of(job: &Job) -> W {
+    if job.s("width") == "f32" {
+        W::F32
+    } else {
+        W::F64
+    }
+}
+
+/// Lattice: the job fixes the leading entries of X (row-major alphabet indices); the rest of X,
+/// then y, then the configuration are chosen.
+fn lattice_case(job: &Job) {
+    let (p, n, k) = (job.u("p"), job.u("n"), job.u("k"));
+    let w = width_of(job);
+    let seed = job.u("seed") % gen::SEED_MAPS.len();
+    let (ax, cx_, ay, cy) = gen::SEED_MAPS[seed];
+    let fixed: Vec<usize> = job.params["fix"].as_array().map(|a| a.iter().map(|v| v.as_u64().unwrap() as usize).collect()).unwrap_or_default();
+    let mut idx = Vec::with_capacity(n * p);
+    for e in 0..n * p {
+        idx.push(if e < fixed.len() { fixed[e] } else { mc::choose(k) });
+    }
+    let xb: Vec<Vec<i64>> = (0..n).map(|i| (0..p).map(|j| gen::SIGMA4[idx[i * p + j]]).collect()).collect();
+    let x_raw: Mat = xb.iter().map(|r| r.iter().map(|v| ax * *v as f64 + cx_).collect()).collect();
+    // exact ranks of the matrix the library sees: 8 * (a v + c) is an integer for every seed map
+    let x8: Vec<Vec<i64>> = x_raw.iter().map(|r| r.iter().map(|v| (v * 8.0) as i64).collect()).collect();
+    debug_assert!(x_raw.iter().flatten().all(|v| (v * 8.0).fract() == 0.0));
+    let ranks = gen::exact_ranks(&x8);
+    if !ranks.0 {
+        // X itself rank deficient: outside the statement for every model
+        mc::count("skipped_lattice_x_rank_deficient");
+        mc::describe(|| json!({"space": "lattice", "X": x_raw, "skipped": "rank(X) < p (exact)"}));
+        return;
+    }
+    let xi = gen::xinfo(&x_raw, w, Some(ranks));
+    let y: Vec<f64> = (0..n).map(|_| ay * gen::YALPHA[mc::choose(3)] as f64 + cy).collect();
+    let cfg = mc::choose(N_CONFIGS);
+    let label = || format!("lattice {} X={} y={:?}", w.name(), mat_str(&xi.x), y);
+    run_config(&xi, &y, cfg, &label);
+    mc::describe(|| {
+        json!({"space": "lattice", "width": w.name(), "X": xi.x, "y": y, "config": config_name(cfg),
+               "rank_X_full": ranks.0, "rank_X1_full": ranks.1, "cond_X1": xi.kappa_a(), "cond_X": xi.kappa_x()})
+    });
+}
+
+/// Structured designs: the job fixes (design, p, n); width, scale pattern, mean pattern, target
+/// and configuration are chosen.
+fn structured_case(job: &Job) {
+    let (p, n) = (job.u("p"), job.u("n"));
+    let design = job.s("design").to_string();
+    let seed = job.u("seed") as u64;
+    let rot = (seed % 3) as usize;
+    let w = if mc::choose(2) == 0 { W::F64 } else { W::F32 };
+    let sp = mc::choose(6);
+    let mp = mc::choose(6);
+    let base = gen::base_design(&design, n, p, seed);
+    let x_raw: Mat = base
+        .iter()
+        .map(|r| (0..p).map(|j| gen::MEANS[gen::pattern(mp, j, rot)] + gen::SCALES[gen::pattern(sp, j, rot)] * r[j]).collect())
+        .collect();
+    let xi = gen::xinfo(&x_raw, w, None);
+    let yt = mc::choose(gen::N_YTYPES);
+    let y: Vec<f64> = gen::structured_y(yt, &base, n, p, seed).into_iter().map(|v| w.round(v)).collect();
+    let cfg = mc::choose(N_CONFIGS);
+    let sname = gen::pattern_name(sp, ["1", "1e-2", "1e3"], rot);
+    let mname = gen::pattern_name(mp, ["0", "5", "100"], rot);
+    let label = || {
+        let mut s = format!("structured {} design={} n={} p={} column scales {} column means {} y={}", w.name(), design, n, p, sname, mname, gen::ytype_name(yt));
+        if n * p <= 12 {
+            s.push_str(&format!(" X={} y={:?}", mat_str(&xi.x), y));
+        }
+        s
+    };
+    if sp != 0 {
+        mc::count("structured_nonunit_column_scales");
+    }
+    run_config(&xi, &y, cfg, &label);
+    mc::describe(|| {
+        json!({"space": "structured", "width": w.name(), "design": design, "n": n, "p": p, "column_scales": sname, "column_means": mname,
+               "target": gen::ytype_name(yt), "config": config_name(cfg), "cond_X1": xi.kappa_a(), "cond_X": xi.kappa_x(), "max_mean_over_std": xi.kappa_s - 1.0,
+               "X_first_rows": xi.x.iter().take(4).collect::<Vec<_>>(), "y_first": y.iter().take(4).collect::<Vec<_>>()})
+    });
+}
+
+fn lattice_jobs(jobs: &mut Vec<Job>, p: usize, n: usize, k: usize, nfix: usize, widths: &[&str], seed: u64) {
+    let combos = k.pow(nfix as u32);
+    for w in widths {
+        for c in 0..combos {
+            let mut fix = Vec::new();
+            let mut r = c;
+            for _ in 0..nfix {
+                fix.push(r % k);
+                r /= k;
+            }
+            fix.reverse();
+            jobs.push(Job::new(
+                format!("lat-p{}-n{}-s{}-{}-{}", p, n, k, w, fix.iter().map(|d| d.to_string()).collect::<String>()),
+                json!({"kind": "lat", "p": p, "n": n, "k": k, "width": w, "fix": fix, "seed": seed}),
+            ));
+        }
+    }
+}
+
+fn structured_ns(p: usize, thorough: bool) -> Vec<usize> {
+    if thorough {
+        (p + 1..=80).collect()
+    } else {
+        let mut v = vec![p + 1, p + 2, 2 * p + 1, 3 * p + 2, 20, 47, 80];
+        v.retain(|n| *n > p);
+        v.sort_unstable();
+        v.dedup();
+        v
+    }
+}
+
+impl Harness for C07 {
+    fn id(&self) -> &'static str {
+        "C07"
+    }
+
+    fn plan(&self, tier: Tier, seed: u64) -> Plan {
+        let t = tier.is_thorough();
+        let mut jobs = Vec::new();
+        let both = ["f64", "f32"];
+        // p = 1: n = 2..4 over Σ4
+        for n in 2..=4 {
+            lattice_jobs(&mut jobs, 1, n, 4, 0, &both, seed);
+        }
+        // p = 2, n = 3 over Σ4 (4096 X)
+        lattice_jobs(&mut jobs, 2, 3, 4, 2, &both, seed);
+        if t {
+            // p = 2, n = 4 over Σ4 (65 536 X), n = 5 over Σ3 (59 049 X); p = 3, n = 4 over Σ3 (531 441 X, f64)
+            lattice_jobs(&mut jobs, 2, 4, 4, 4, &both, seed);
+            lattice_jobs(&mut jobs, 2, 5, 3, 4, &both, seed);
+            lattice_jobs(&mut jobs, 3, 4, 3, 6, &["f64"], seed);
+        } else {
+            // p = 2, n = 4 over Σ3 (6561 X)
+            lattice_jobs(&mut jobs, 2, 4, 3, 2, &both, seed);
+        }
+        let mut structured = Vec::new();
+        for p in 1..=8usize {
+            for n in structured_ns(p, t) {
+                for d in gen::DESIGNS {
+                    structured.push((n * p, Job::new(format!("str-{}-p{}-n{}", d, p, n), json!({"kind": "str", "design": d, "p": p, "n": n, "seed": seed}))));
+                }
+            }
+        }
+        structured.sort_by_key(|(c, _)| *c);
+        jobs.extend(structured.into_iter().map(|(_, j)| j));
+        Plan {
+            jobs,
+            budget_s: if t { 2700 } else { 40 },
+            case_deadline_ms: 20_000,
+            floors: vec![
+                ("ols_cases", 10_000),
+                ("ols_cases_f32", 3_000),
+                ("ols_square_system_zero_residual", 1_000),
+                ("ols_agreement_decisive", 10_000),
+                ("ridge_norm_on_cases", 10_000),
+                ("ridge_norm_off_cases", 10_000),
+                ("ridge_norm_off_with_constant_or_dependent_on_ones", 100),
+                ("ridge_cases_f32", 3_000),
+                ("ridge_agreement_decisive", 10_000),
+                ("nonzero_column_mean", 10_000),
+                ("structured_nonunit_column_scales", 10_000),
+                ("skipped_lattice_x_rank_deficient", 10),
+                ("nonzero_model", 10_000),
+            ],
+            bounds: json!({
+                "lattice": if t {
+                    "every X over {0,1,-1,2}: p=1 n=2..4, p=2 n=3..4; every X over {0,1,-1}: p=2 n=5, p=3 n=4 (f64); every y over {0,-1,2}^n; f64 and f32"
+                } else {
+                    "every X over {0,1,-1,2}: p=1 n=2..4, p=2 n=3; every X over {0,1,-1}: p=2 n=4; every y over {0,-1,2}^n; f64 and f32"
+                },
+                "structured": format!("designs {:?} x p=1..8 x n in {} x 6 column-scale patterns over {{1,1e-2,1e3}} x 6 column-mean patterns over {{0,5,100}} x 4 targets x f64/f32",
+                    gen::DESIGNS, if t { "p+1..80 (every n)" } else { "{p+1,p+2,2p+1,3p+2,20,47,80}" }),
+                "configurations": "OLS {QR,SVD}; ridge alpha in {1e-3,0.1,1,100} x normalize {on,off} x {Cholesky,SVD}",
+                "domain": "OLS: [X 1] full column rank (exact on the lattice) and cond2([X 1]) <= 1e6 (f64) / 1e3 (f32); ridge: X full column rank and cond2(X) <= limit; normalize=on additionally needs non-constant columns",
+                "seed": format!("affine image of the lattice alphabet #{} of 8; rotation of the cyclic scale/mean patterns and indicator offset", seed % 8),
+            }),
+        }
+    }
+
+    fn run(&self, job: &Job) {
+        match job.kind() {
+            "lat" => lattice_case(job),
+            "str" => structured_case(job),
+            other => panic!("unknown job kind {}", other),
+        }
+    }
+
+    fn rule(&self) -> String {
+        "one execution = one (X, y, width, model configuration) fitted with both solvers; non-trivial when the fit returned a non-zero model; distinct = distinct bit-exact digest of the returned coefficients and intercepts of both solvers".into()
+    }
+
+    fn assumptions(&self) -> Vec<String> {
+        vec![
+            "inputs are rounded to the working type before the oracle sees them; the oracle works in f64 with compensated sums".into(),
+            "'standardised' means centred by the column mean and divided by the population standard deviation (the convention of linalg/stats.rs)".into(),
+            "f32 is checked for designs with cond <= 1e3 only ('scaled tolerance' of the statement); normalize=on is checked only while (1+max|mean|/std)*eps_T <= 1e-3, its gradient clauses only while 64*n*eps_T*(1+max|mean|/std) <= 0.05".into(),
+            "no RNG on any explored path (linear models are deterministic); RNG allow-list checked at start-up".into(),
+        ]
+    }
+}
+
 fn main() {
-    eprintln!("MACHINERY-ERROR: harness C07 not built yet");
-    std::process::exit(2);
+    if let Err(e) = mc_sc::check_rng_sites() {
+        eprintln!("MACHINERY-ERROR: {}", e);
+        std::process::exit(2);
+    }
+    mc::main(C07)
 }
